@@ -23,3 +23,22 @@ def run_cases(ctx, cases):
 
 def out_words(txt):
     return [(m.group(0), m.start()) for m in WORD.finditer(txt)]
+
+
+def crlf_variant(case):
+    """the same document with CR LF line breaks (every offset recorded by the renderer is moved accordingly)"""
+    src = case['src']
+    import bisect
+    nl = [i for i, ch in enumerate(src) if ch == '\n']
+    def mv(off):
+        return off + bisect.bisect_left(nl, off)
+    c = dict(case)
+    c['src'] = src.replace('\n', '\r\n')
+    c['words'] = [dict(w, start=mv(w['start'])) if 'start' in w else w for w in case['words']]
+    for w in c['words']:
+        if 'end' in w:
+            w['end'] = mv(w['end'])
+    c['spans'] = [(t, mv(a), mv(b)) for (t, a, b) in case['spans']]
+    c['callspans'] = [[nm, mv(a), mv(b)] for (nm, a, b) in case['callspans']]
+    c['kind'] = case.get('kind', 'sem') + '+crlf'
+    return c
